@@ -148,7 +148,7 @@ func init() {
 	})
 }
 
-var c01Kinds = []string{"string", "bytes", "reader", "scanner"}
+var c01Kinds = []string{"string", "bytes", "reader", "scanner", "lenient"}
 
 // Byte sequences that are not valid UTF-8: a byte that never occurs, a lone
 // continuation byte, truncated two- and three-byte characters, an encoded
@@ -221,7 +221,7 @@ func TestC01(t *testing.T) {
 				if ri == 1 && n < 2 {
 					continue
 				}
-				req := wproto.Req{Op: "parse", Src: src, Kind: c01Kinds[(idx+ri)%4], Cmd: idx%7 == 0}
+				req := wproto.Req{Op: "parse", Src: src, Kind: c01Kinds[(idx+ri)%len(c01Kinds)], Cmd: idx%7 == 0}
 				if idx%5 == 0 && !req.Cmd {
 					req.Env = "empty"
 				}
@@ -233,7 +233,7 @@ func TestC01(t *testing.T) {
 		})
 	}
 	st.Exhaustive = true
-	st.Note("exhaustive: all strings of <= %d tokens over the %d-token alphabet, blank-separated and concatenated, source kind rotating over string / []byte / io.Reader / custom RuneScanner, each under GODEBUG panicnil=0 and panicnil=1, ParseCommands (every 7th: ParseCommand; every 5th: an environment with an empty alias table)", maxn, len(gen.TokenAlphabet))
+	st.Note("exhaustive: all strings of <= %d tokens over the %d-token alphabet, blank-separated and concatenated, source kind rotating over string / []byte / io.Reader / custom RuneScanner / a RuneScanner whose UnreadRune steps back even after a failed read, each under GODEBUG panicnil=0 and panicnil=1, ParseCommands (every 7th: ParseCommand; every 5th: an environment with an empty alias table)", maxn, len(gen.TokenAlphabet))
 
 	// (i-b) byte sequences that are not valid UTF-8, in every kind of context
 	if sh == 0 {
@@ -255,6 +255,8 @@ func TestC01(t *testing.T) {
 	}
 	n /= nsh
 	hostile := []string{"<<\"\"", "<<\"$x\"", "<<\"\\\"\"", "<<E\"\"OF", "<<''", "<<\\", "$((", "`", "\\", "${", "<<E\n", "((", "'", "\"", "$(", "<<-", ";;", "\n", "#", "{", "}", "é", "\x00", "\xff", "))", ")", "&&", "|", "&"}
+	// alias values: names (so that chains and cycles arise), complete tokens and unterminated fragments
+	vtoks := append(append(append([]string{}, "a", "b", "c", "cmd", "echo", "ls", "x1", "foo"), gen.TokenAlphabet...), hostile...)
 	prop := func(rt *rapid.T) {
 		o := genOpts()
 		o.MaxDepth = rapid.IntRange(1, 3).Draw(rt, "maxdepth")
@@ -311,7 +313,7 @@ func TestC01(t *testing.T) {
 				name := rapid.SampledFrom(names).Draw(rt, "aname")
 				var v strings.Builder
 				for j := rapid.IntRange(0, 4).Draw(rt, "nvtok"); j > 0; j-- {
-					v.WriteString(rapid.SampledFrom(append(append([]string{}, names...), gen.TokenAlphabet...)).Draw(rt, "vtok"))
+					v.WriteString(rapid.SampledFrom(vtoks).Draw(rt, "vtok"))
 					v.WriteString(rapid.SampledFrom([]string{" ", " ", "", "\n"}).Draw(rt, "vsep"))
 				}
 				al[name] = v.String()
